@@ -1,0 +1,133 @@
+//go:build verif
+
+package quat
+
+// Copyright ©2026 The Gonum Authors. All rights reserved.
+// Use of this source code is governed by a BSD-style
+// license that can be found in the LICENSE file.
+
+// Machine-checked contracts for the quaternion arithmetic of this package
+// (verification hook, build tag verif; this file contains comments only).
+// The contract language and the checker are described in /verif/DESIGN.md.
+//
+// mulR, mulI, mulJ, mulK are the four components of the Hamiltonian product of
+// r0+r1i+r2j+r3k and s0+s1i+s2j+s3k, norm2 is the squared norm. The functions
+// are specified bit-exactly (same: identical float64 values, the float
+// operations in the order and association of the defining formula), the
+// algebraic laws are lemmas over the same macros in exact (real) arithmetic.
+
+//@ spec mulR(r0 float64, r1 float64, r2 float64, r3 float64, s0 float64, s1 float64, s2 float64, s3 float64) float64 = r0*s0 - r1*s1 - r2*s2 - r3*s3
+//@ spec mulI(r0 float64, r1 float64, r2 float64, r3 float64, s0 float64, s1 float64, s2 float64, s3 float64) float64 = r0*s1 + r1*s0 + r2*s3 - r3*s2
+//@ spec mulJ(r0 float64, r1 float64, r2 float64, r3 float64, s0 float64, s1 float64, s2 float64, s3 float64) float64 = r0*s2 - r1*s3 + r2*s0 + r3*s1
+//@ spec mulK(r0 float64, r1 float64, r2 float64, r3 float64, s0 float64, s1 float64, s2 float64, s3 float64) float64 = r0*s3 + r1*s2 - r2*s1 + r3*s0
+//@ spec norm2(r0 float64, r1 float64, r2 float64, r3 float64) float64 = r0*r0 + r1*r1 + r2*r2 + r3*r3
+
+//@ func Add props: C18
+//@ writes nothing
+//@ ensures same(result.Real, x.Real + y.Real)
+//@ ensures same(result.Imag, x.Imag + y.Imag)
+//@ ensures same(result.Jmag, x.Jmag + y.Jmag)
+//@ ensures same(result.Kmag, x.Kmag + y.Kmag)
+
+//@ func Sub props: C18
+//@ writes nothing
+//@ ensures same(result.Real, x.Real - y.Real)
+//@ ensures same(result.Imag, x.Imag - y.Imag)
+//@ ensures same(result.Jmag, x.Jmag - y.Jmag)
+//@ ensures same(result.Kmag, x.Kmag - y.Kmag)
+
+//@ func Mul props: C18
+//@ writes nothing
+//@ ensures same(result.Real, mulR(x.Real, x.Imag, x.Jmag, x.Kmag, y.Real, y.Imag, y.Jmag, y.Kmag))
+//@ ensures same(result.Imag, mulI(x.Real, x.Imag, x.Jmag, x.Kmag, y.Real, y.Imag, y.Jmag, y.Kmag))
+//@ ensures same(result.Jmag, mulJ(x.Real, x.Imag, x.Jmag, x.Kmag, y.Real, y.Imag, y.Jmag, y.Kmag))
+//@ ensures same(result.Kmag, mulK(x.Real, x.Imag, x.Jmag, x.Kmag, y.Real, y.Imag, y.Jmag, y.Kmag))
+
+//@ func Scale props: C18
+//@ writes nothing
+//@ ensures same(result.Real, f * q.Real)
+//@ ensures same(result.Imag, f * q.Imag)
+//@ ensures same(result.Jmag, f * q.Jmag)
+//@ ensures same(result.Kmag, f * q.Kmag)
+
+//@ func Conj props: C18
+//@ writes nothing
+//@ ensures same(result.Real, q.Real) && same(result.Imag, -q.Imag) && same(result.Jmag, -q.Jmag) && same(result.Kmag, -q.Kmag)
+
+// Abs: non-negative in exact arithmetic. The value clause
+//   ensures [real] result*result == norm2(q.Real, q.Imag, q.Jmag, q.Kmag)
+// is not stated: undecided by z3 and cvc5 within 130 s even in the thorough tier
+// (sign and swap branches merged into nested ite terms under the sqrt axiom).
+//@ func Abs props: C18
+//@ writes nothing
+//@ ensures [real] result >= 0
+
+// Inv: in exact arithmetic a real multiple of the conjugate (the factor is 1/Abs(q)²;
+// that it equals 1/norm2 is not stated because the value clause of Abs is missing, see
+// above; lemma inverse shows that Conj(q)/norm2(q) is the two-sided inverse).
+//@ func Inv props: C18
+//@ writes nothing
+//@ ensures [real] result.Imag*q.Real == -q.Imag*result.Real && result.Jmag*q.Real == -q.Jmag*result.Real && result.Kmag*q.Real == -q.Kmag*result.Real
+
+// ---- algebraic laws (exact arithmetic) ------------------------------------------
+
+// (a*b)*c == a*(b*c)
+//@ lemma mul_associative props: C18
+//@ floats: real
+//@ var a0 float64, a1 float64, a2 float64, a3 float64, b0 float64, b1 float64, b2 float64, b3 float64, c0 float64, c1 float64, c2 float64, c3 float64
+//@ goal mulR(mulR(a0, a1, a2, a3, b0, b1, b2, b3), mulI(a0, a1, a2, a3, b0, b1, b2, b3), mulJ(a0, a1, a2, a3, b0, b1, b2, b3), mulK(a0, a1, a2, a3, b0, b1, b2, b3), c0, c1, c2, c3) == mulR(a0, a1, a2, a3, mulR(b0, b1, b2, b3, c0, c1, c2, c3), mulI(b0, b1, b2, b3, c0, c1, c2, c3), mulJ(b0, b1, b2, b3, c0, c1, c2, c3), mulK(b0, b1, b2, b3, c0, c1, c2, c3)) && mulI(mulR(a0, a1, a2, a3, b0, b1, b2, b3), mulI(a0, a1, a2, a3, b0, b1, b2, b3), mulJ(a0, a1, a2, a3, b0, b1, b2, b3), mulK(a0, a1, a2, a3, b0, b1, b2, b3), c0, c1, c2, c3) == mulI(a0, a1, a2, a3, mulR(b0, b1, b2, b3, c0, c1, c2, c3), mulI(b0, b1, b2, b3, c0, c1, c2, c3), mulJ(b0, b1, b2, b3, c0, c1, c2, c3), mulK(b0, b1, b2, b3, c0, c1, c2, c3)) && mulJ(mulR(a0, a1, a2, a3, b0, b1, b2, b3), mulI(a0, a1, a2, a3, b0, b1, b2, b3), mulJ(a0, a1, a2, a3, b0, b1, b2, b3), mulK(a0, a1, a2, a3, b0, b1, b2, b3), c0, c1, c2, c3) == mulJ(a0, a1, a2, a3, mulR(b0, b1, b2, b3, c0, c1, c2, c3), mulI(b0, b1, b2, b3, c0, c1, c2, c3), mulJ(b0, b1, b2, b3, c0, c1, c2, c3), mulK(b0, b1, b2, b3, c0, c1, c2, c3)) && mulK(mulR(a0, a1, a2, a3, b0, b1, b2, b3), mulI(a0, a1, a2, a3, b0, b1, b2, b3), mulJ(a0, a1, a2, a3, b0, b1, b2, b3), mulK(a0, a1, a2, a3, b0, b1, b2, b3), c0, c1, c2, c3) == mulK(a0, a1, a2, a3, mulR(b0, b1, b2, b3, c0, c1, c2, c3), mulI(b0, b1, b2, b3, c0, c1, c2, c3), mulJ(b0, b1, b2, b3, c0, c1, c2, c3), mulK(b0, b1, b2, b3, c0, c1, c2, c3))
+
+// a*(b+c) == a*b + a*c
+//@ lemma mul_distributes_left props: C18
+//@ floats: real
+//@ var a0 float64, a1 float64, a2 float64, a3 float64, b0 float64, b1 float64, b2 float64, b3 float64, c0 float64, c1 float64, c2 float64, c3 float64
+//@ goal mulR(a0, a1, a2, a3, (b0 + c0), (b1 + c1), (b2 + c2), (b3 + c3)) == (mulR(a0, a1, a2, a3, b0, b1, b2, b3) + mulR(a0, a1, a2, a3, c0, c1, c2, c3)) && mulI(a0, a1, a2, a3, (b0 + c0), (b1 + c1), (b2 + c2), (b3 + c3)) == (mulI(a0, a1, a2, a3, b0, b1, b2, b3) + mulI(a0, a1, a2, a3, c0, c1, c2, c3)) && mulJ(a0, a1, a2, a3, (b0 + c0), (b1 + c1), (b2 + c2), (b3 + c3)) == (mulJ(a0, a1, a2, a3, b0, b1, b2, b3) + mulJ(a0, a1, a2, a3, c0, c1, c2, c3)) && mulK(a0, a1, a2, a3, (b0 + c0), (b1 + c1), (b2 + c2), (b3 + c3)) == (mulK(a0, a1, a2, a3, b0, b1, b2, b3) + mulK(a0, a1, a2, a3, c0, c1, c2, c3))
+
+// (a+b)*c == a*c + b*c
+//@ lemma mul_distributes_right props: C18
+//@ floats: real
+//@ var a0 float64, a1 float64, a2 float64, a3 float64, b0 float64, b1 float64, b2 float64, b3 float64, c0 float64, c1 float64, c2 float64, c3 float64
+//@ goal mulR((a0 + b0), (a1 + b1), (a2 + b2), (a3 + b3), c0, c1, c2, c3) == (mulR(a0, a1, a2, a3, c0, c1, c2, c3) + mulR(b0, b1, b2, b3, c0, c1, c2, c3)) && mulI((a0 + b0), (a1 + b1), (a2 + b2), (a3 + b3), c0, c1, c2, c3) == (mulI(a0, a1, a2, a3, c0, c1, c2, c3) + mulI(b0, b1, b2, b3, c0, c1, c2, c3)) && mulJ((a0 + b0), (a1 + b1), (a2 + b2), (a3 + b3), c0, c1, c2, c3) == (mulJ(a0, a1, a2, a3, c0, c1, c2, c3) + mulJ(b0, b1, b2, b3, c0, c1, c2, c3)) && mulK((a0 + b0), (a1 + b1), (a2 + b2), (a3 + b3), c0, c1, c2, c3) == (mulK(a0, a1, a2, a3, c0, c1, c2, c3) + mulK(b0, b1, b2, b3, c0, c1, c2, c3))
+
+// Conj(a*b) == Conj(b)*Conj(a)
+//@ lemma conj_antihomomorphism props: C18
+//@ floats: real
+//@ var a0 float64, a1 float64, a2 float64, a3 float64, b0 float64, b1 float64, b2 float64, b3 float64
+//@ goal mulR(a0, a1, a2, a3, b0, b1, b2, b3) == mulR(b0, (-b1), (-b2), (-b3), a0, (-a1), (-a2), (-a3)) && (-mulI(a0, a1, a2, a3, b0, b1, b2, b3)) == mulI(b0, (-b1), (-b2), (-b3), a0, (-a1), (-a2), (-a3)) && (-mulJ(a0, a1, a2, a3, b0, b1, b2, b3)) == mulJ(b0, (-b1), (-b2), (-b3), a0, (-a1), (-a2), (-a3)) && (-mulK(a0, a1, a2, a3, b0, b1, b2, b3)) == mulK(b0, (-b1), (-b2), (-b3), a0, (-a1), (-a2), (-a3))
+
+// |a*b|^2 == |a|^2 * |b|^2
+//@ lemma norm_multiplicative props: C18
+//@ floats: real
+//@ var a0 float64, a1 float64, a2 float64, a3 float64, b0 float64, b1 float64, b2 float64, b3 float64
+//@ goal norm2(mulR(a0, a1, a2, a3, b0, b1, b2, b3), mulI(a0, a1, a2, a3, b0, b1, b2, b3), mulJ(a0, a1, a2, a3, b0, b1, b2, b3), mulK(a0, a1, a2, a3, b0, b1, b2, b3)) == norm2(a0, a1, a2, a3)*norm2(b0, b1, b2, b3)
+
+// a*Conj(a) == Conj(a)*a == |a|^2
+//@ lemma mul_conj_is_norm props: C18
+//@ floats: real
+//@ var a0 float64, a1 float64, a2 float64, a3 float64
+//@ goal mulR(a0, a1, a2, a3, a0, (-a1), (-a2), (-a3)) == norm2(a0, a1, a2, a3) && mulI(a0, a1, a2, a3, a0, (-a1), (-a2), (-a3)) == 0 && mulJ(a0, a1, a2, a3, a0, (-a1), (-a2), (-a3)) == 0 && mulK(a0, a1, a2, a3, a0, (-a1), (-a2), (-a3)) == 0 && mulR(a0, (-a1), (-a2), (-a3), a0, a1, a2, a3) == norm2(a0, a1, a2, a3) && mulI(a0, (-a1), (-a2), (-a3), a0, a1, a2, a3) == 0 && mulJ(a0, (-a1), (-a2), (-a3), a0, a1, a2, a3) == 0 && mulK(a0, (-a1), (-a2), (-a3), a0, a1, a2, a3) == 0
+
+// 1*a == a*1 == a
+//@ lemma one_is_unit props: C18
+//@ floats: real
+//@ var a0 float64, a1 float64, a2 float64, a3 float64
+//@ goal mulR(1, 0, 0, 0, a0, a1, a2, a3) == a0 && mulI(1, 0, 0, 0, a0, a1, a2, a3) == a1 && mulJ(1, 0, 0, 0, a0, a1, a2, a3) == a2 && mulK(1, 0, 0, 0, a0, a1, a2, a3) == a3 && mulR(a0, a1, a2, a3, 1, 0, 0, 0) == a0 && mulI(a0, a1, a2, a3, 1, 0, 0, 0) == a1 && mulJ(a0, a1, a2, a3, 1, 0, 0, 0) == a2 && mulK(a0, a1, a2, a3, 1, 0, 0, 0) == a3
+
+// Scale(f, a) == (f+0i+0j+0k)*a
+//@ lemma scale_is_mul_by_real props: C18
+//@ floats: real
+//@ var f float64, a0 float64, a1 float64, a2 float64, a3 float64
+//@ goal mulR(f, 0, 0, 0, a0, a1, a2, a3) == f*a0 && mulI(f, 0, 0, 0, a0, a1, a2, a3) == f*a1 && mulJ(f, 0, 0, 0, a0, a1, a2, a3) == f*a2 && mulK(f, 0, 0, 0, a0, a1, a2, a3) == f*a3
+
+// a*Inv(a) == Inv(a)*a == 1 for a != 0 (Inv as in its contract)
+//@ lemma inverse props: C18
+//@ floats: real
+//@ var a0 float64, a1 float64, a2 float64, a3 float64
+//@ hyp norm2(a0, a1, a2, a3) != 0
+//@ goal mulR(a0, a1, a2, a3, (a0/norm2(a0, a1, a2, a3)), (-a1/norm2(a0, a1, a2, a3)), (-a2/norm2(a0, a1, a2, a3)), (-a3/norm2(a0, a1, a2, a3))) == 1 && mulI(a0, a1, a2, a3, (a0/norm2(a0, a1, a2, a3)), (-a1/norm2(a0, a1, a2, a3)), (-a2/norm2(a0, a1, a2, a3)), (-a3/norm2(a0, a1, a2, a3))) == 0 && mulJ(a0, a1, a2, a3, (a0/norm2(a0, a1, a2, a3)), (-a1/norm2(a0, a1, a2, a3)), (-a2/norm2(a0, a1, a2, a3)), (-a3/norm2(a0, a1, a2, a3))) == 0 && mulK(a0, a1, a2, a3, (a0/norm2(a0, a1, a2, a3)), (-a1/norm2(a0, a1, a2, a3)), (-a2/norm2(a0, a1, a2, a3)), (-a3/norm2(a0, a1, a2, a3))) == 0 && mulR((a0/norm2(a0, a1, a2, a3)), (-a1/norm2(a0, a1, a2, a3)), (-a2/norm2(a0, a1, a2, a3)), (-a3/norm2(a0, a1, a2, a3)), a0, a1, a2, a3) == 1 && mulI((a0/norm2(a0, a1, a2, a3)), (-a1/norm2(a0, a1, a2, a3)), (-a2/norm2(a0, a1, a2, a3)), (-a3/norm2(a0, a1, a2, a3)), a0, a1, a2, a3) == 0 && mulJ((a0/norm2(a0, a1, a2, a3)), (-a1/norm2(a0, a1, a2, a3)), (-a2/norm2(a0, a1, a2, a3)), (-a3/norm2(a0, a1, a2, a3)), a0, a1, a2, a3) == 0 && mulK((a0/norm2(a0, a1, a2, a3)), (-a1/norm2(a0, a1, a2, a3)), (-a2/norm2(a0, a1, a2, a3)), (-a3/norm2(a0, a1, a2, a3)), a0, a1, a2, a3) == 0
+
+// i*i == j*j == k*k == -1, i*j == k == -(j*i): the product is not commutative
+//@ lemma units props: C18
+//@ floats: real
+//@ var z float64
+//@ goal mulR(0, 1, 0, 0, 0, 1, 0, 0) == -1 && mulI(0, 1, 0, 0, 0, 1, 0, 0) == 0 && mulJ(0, 1, 0, 0, 0, 1, 0, 0) == 0 && mulK(0, 1, 0, 0, 0, 1, 0, 0) == 0 && mulR(0, 0, 1, 0, 0, 0, 1, 0) == -1 && mulI(0, 0, 1, 0, 0, 0, 1, 0) == 0 && mulJ(0, 0, 1, 0, 0, 0, 1, 0) == 0 && mulK(0, 0, 1, 0, 0, 0, 1, 0) == 0 && mulR(0, 0, 0, 1, 0, 0, 0, 1) == -1 && mulI(0, 0, 0, 1, 0, 0, 0, 1) == 0 && mulJ(0, 0, 0, 1, 0, 0, 0, 1) == 0 && mulK(0, 0, 0, 1, 0, 0, 0, 1) == 0 && mulR(0, 1, 0, 0, 0, 0, 1, 0) == 0 && mulI(0, 1, 0, 0, 0, 0, 1, 0) == 0 && mulJ(0, 1, 0, 0, 0, 0, 1, 0) == 0 && mulK(0, 1, 0, 0, 0, 0, 1, 0) == 1 && mulR(0, 0, 1, 0, 0, 1, 0, 0) == 0 && mulI(0, 0, 1, 0, 0, 1, 0, 0) == 0 && mulJ(0, 0, 1, 0, 0, 1, 0, 0) == 0 && mulK(0, 0, 1, 0, 0, 1, 0, 0) == -1
